@@ -6,7 +6,7 @@
 //   'reentrant' (the first handler invocation itself merges the value 32)
 #include "hcommon.h"
 
-typedef struct { const char *name; int nthr; int vals[3][3]; int suspended, reentrant; } script;
+typedef struct { const char *name; int nthr; int vals[3][3]; int suspended, reentrant, inactive; } script;
 static const script SCRIPTS[] = {
 	{ "T0:[1] T1:[2]", 2, { {1}, {2} }, 0, 0 },
 	{ "T0:[1,4] T1:[2]", 2, { {1, 4}, {2} }, 0, 0 },
@@ -15,6 +15,8 @@ static const script SCRIPTS[] = {
 	{ "suspended T0:[1,4] T1:[2]", 2, { {1, 4}, {2} }, 1, 0 },
 	{ "reentrant T0:[1] T1:[2]", 2, { {1}, {2} }, 0, 1 },
 	{ "T0:[1,4,16]", 1, { {1, 4, 16} }, 0, 0 },
+	{ "not yet activated (dispatch_activate after the merges) T0:[1,4] T1:[2]", 2, { {1, 4}, {2} }, 0, 0, 1 },
+	{ "dispatch_activate racing the merges T0:[activate,1,4] T1:[2]", 2, { {1, 4}, {2} }, 0, 0, 2 },
 };
 #define NSCRIPTS ((int)(sizeof(SCRIPTS) / sizeof(SCRIPTS[0])))
 static const char *const TYPES[] = { "DATA_ADD", "DATA_OR", "DATA_REPLACE" };
@@ -76,13 +78,15 @@ static void run(int v)
 	dispatch_source_type_t ty = g_type == 0 ? DISPATCH_SOURCE_TYPE_DATA_ADD : g_type == 1 ? DISPATCH_SOURCE_TYPE_DATA_OR : DISPATCH_SOURCE_TYPE_DATA_REPLACE;
 	g_src = dispatch_source_create(ty, 0, 0, q);
 	dispatch_source_set_event_handler_f(g_src, handler);
-	dispatch_activate(g_src);
+	if (!g_s->inactive) dispatch_activate(g_src);
 	if (g_s->suspended) dispatch_suspend(g_src);
 	int th[3];
 	vx_focus_begin();
 	for (int t = 1; t < g_s->nthr; t++) th[t] = vx_thread(merger, (void *)(intptr_t)t);
+	if (g_s->inactive == 2) dispatch_activate(g_src);
 	merger((void *)0);
 	for (int t = 1; t < g_s->nthr; t++) vx_join(th[t]);
+	if (g_s->inactive == 1) dispatch_activate(g_src);
 	if (g_s->suspended) dispatch_resume(g_src);
 	if (g_s->reentrant) {
 		// the sentinel must be the strictly last merge: wait for the handler's own merge first
